@@ -131,12 +131,12 @@ var overlayFiles map[string][]byte
 func load(repo string, patterns []string) (*token.FileSet, []*packages.Package, map[string]*packages.Package, error) {
 	fset := token.NewFileSet()
 	cfg := &packages.Config{
-		Mode:  packages.LoadAllSyntax,
-		Dir:   repo,
-		Fset:  fset,
+		Mode:    packages.LoadAllSyntax,
+		Dir:     repo,
+		Fset:    fset,
 		Tests:   false,
 		Overlay: overlayFiles,
-		Env:   append(os.Environ(), "PATH=/opt/veriftools/go1.26.8/bin:"+os.Getenv("PATH"), "GOFLAGS=-mod=mod", "GOPROXY=off", "GOWORK=off", "GOSUMDB=off", "GOTOOLCHAIN=local"),
+		Env:     append(os.Environ(), "PATH=/opt/veriftools/go1.26.8/bin:"+os.Getenv("PATH"), "GOFLAGS=-mod=mod", "GOPROXY=off", "GOWORK=off", "GOSUMDB=off", "GOTOOLCHAIN=local"),
 	}
 	pkgs, err := packages.Load(cfg, patterns...)
 	if err != nil {
